@@ -9,7 +9,7 @@
 //! (`c_hung`), reported with its trace.
 use std::collections::{BTreeMap, HashMap, HashSet};
 use std::net::{IpAddr, Ipv4Addr};
-use std::sync::atomic::{AtomicUsize, Ordering};
+use std::sync::atomic::{AtomicI64, AtomicUsize, Ordering};
 use std::sync::{Arc, Mutex};
 use std::time::{Duration, SystemTime};
 
@@ -18,6 +18,8 @@ use scion_stack::path::fetcher::traits::{PathFetchError, PathFetcher};
 use scion_stack::path::manager::traits::{PathManager, PathWaitError, PathWaitTimeoutError};
 use scion_stack::path::manager::verif_trace as vt;
 use scion_stack::path::manager::{MultiPathManager, MultiPathManagerConfig};
+use scion_stack::stack::ScionSocketSendError;
+use scion_stack::stack::socket::SendErrorReceiver;
 use sciparse::address::ip_addr::ScionIpAddr;
 use sciparse::identifier::{asn::Asn, isd::Isd, isd_asn::IsdAsn};
 use sciparse::path::ScionPath;
@@ -38,6 +40,32 @@ fn dummy_path(ts: u32, seed: u32) -> ScionPath {
     b = b.add_hop(1, 0);
     b.build(ts).path()
 }
+
+// ---------------------------------------------------------------- wall clock of this process
+// The worker decides about refetch / backoff / idleness with SystemTime::now(); the retry after a
+// failed lookup comes after the failure backoff (60 s .. 300 s, no setter in the public config).
+// To drive retries the harness moves the wall clock of its own process: this definition of
+// clock_gettime is linked in place of libc's (std is linked statically into the binary) and adds
+// an offset to CLOCK_REALTIME only; tokio's timers (CLOCK_MONOTONIC) are not affected.
+static CLOCK_OFFSET_NS: AtomicI64 = AtomicI64::new(0);
+#[repr(C)]
+pub struct Timespec { tv_sec: i64, tv_nsec: i64 }
+unsafe extern "C" { fn syscall(num: i64, ...) -> i64; }
+/// # Safety
+/// same contract as libc's clock_gettime
+#[unsafe(no_mangle)]
+pub unsafe extern "C" fn clock_gettime(clk: i32, ts: *mut Timespec) -> i32 {
+    let r = unsafe { syscall(228, clk as i64, ts) } as i32;     // SYS_clock_gettime on x86_64
+    if r == 0 && clk == 0 && !ts.is_null() {
+        let off = CLOCK_OFFSET_NS.load(Ordering::SeqCst);
+        let t = unsafe { &mut *ts };
+        let total = t.tv_sec as i128 * 1_000_000_000 + t.tv_nsec as i128 + off as i128;
+        t.tv_sec = (total / 1_000_000_000) as i64;
+        t.tv_nsec = (total % 1_000_000_000) as i64;
+    }
+    r
+}
+fn jump_wall_clock(secs: i64) { CLOCK_OFFSET_NS.fetch_add(secs * 1_000_000_000, Ordering::SeqCst); }
 
 // ---------------------------------------------------------------- scripted fetcher
 #[derive(Clone, Copy, Debug)]
@@ -66,7 +94,9 @@ impl PathFetcher for Fetcher {
 // ---------------------------------------------------------------- scenario
 #[derive(Clone, Debug)]
 struct WSpec { kind: u8, wave: u8, pre_yields: u32, pre_sleep_us: u64, timeout_us: u64, far_future: bool,
-               after_quit: Option<u32> } // after_quit: spin until a worker has quit, then that many more yields // kind: 0 path_wait, 1 cached_path, 2 path_timeout
+               after_quit: Option<u32>,            // spin until a worker has quit, then that many more yields
+               after_begin: Option<(usize, u32)> } // spin until the n-th lookup has begun, then that many more yields
+// kind: 0 path_wait, 1 cached_path, 2 path_timeout
 #[derive(Clone, Debug)]
 struct Scenario {
     name: String,
@@ -80,6 +110,8 @@ struct Scenario {
     final_wait_ms: u64,        // before the drop
     perturb: u32,              // 0 none, 1 light, 2 heavy
     seed: u64,
+    jump_before_wave: [bool; 3],   // move the wall clock past the failure backoff and wake the worker
+    inline_then_drop: bool,        // cached_path callers run inline, the manager is dropped before the worker's first poll
 }
 
 #[derive(Clone, Copy, Debug, PartialEq, Eq, Hash, PartialOrd, Ord)]
@@ -125,10 +157,28 @@ async fn drive(sc: Scenario, sink: Arc<vt::Sink>) -> Outcome {
     let mgr = MultiPathManager::new(cfg, Fetcher(script.clone()), PathStrategy::default()).expect("config");
     let (src, dst) = (SRC.isd_asn(), DST.isd_asn());
     let mut handles = Vec::new();
+    let mut results = Vec::new();
+    let mut hung = false;
+    if sc.inline_then_drop {
+        // no await between the request that spawns the worker and the drop: the worker's first
+        // poll finds the manager gone and it exits before any lookup
+        for (i, _) in sc.waiters.iter().enumerate() {
+            let r = vt::ACTOR.sync_scope(i as u64 + 1, || mgr.cached_path(src, dst, SystemTime::now()));
+            results.push((i, if r.is_some() { Res::Path } else { Res::NoneCached }));
+        }
+    }
     for wave in 0..3u8 {
+        if sc.inline_then_drop { break; }
         if wave >= 1 {
             if !sc.waiters.iter().any(|w| w.wave >= wave) && sc.stop_in_wave[wave as usize..].iter().all(|s| s.is_none()) { break; }
             tokio::time::sleep(Duration::from_millis(sc.gap_ms[wave as usize])).await;
+        }
+        if sc.jump_before_wave[wave as usize] {
+            // past the failure backoff (at most 300 s + jitter); an issue report for a foreign AS
+            // wakes the worker's select loop, which recomputes its next tick from the wall clock
+            jump_wall_clock(400);
+            mgr.report_send_error(&ScionSocketSendError::UnderlayNextHopUnreachable {
+                isd_as: IsdAsn::new(Isd(9), Asn(9)), interface_id: 100 + wave as u16, address: None, msg: "wake".into() });
         }
         for (i, w) in sc.waiters.iter().enumerate() {
             if w.wave != wave { continue; }
@@ -142,6 +192,15 @@ async fn drive(sc: Scenario, sink: Arc<vt::Sink>) -> Outcome {
                     let t0 = std::time::Instant::now();
                     loop {
                         if sk.events.lock().unwrap().iter().any(|e| e.kind == vt::Kind::Quit) { break; }
+                        if t0.elapsed() > Duration::from_secs(2) { break; }
+                        tokio::task::yield_now().await;
+                    }
+                    for _ in 0..extra { tokio::task::yield_now().await; }
+                }
+                if let Some((n, extra)) = w.after_begin {
+                    let t0 = std::time::Instant::now();
+                    loop {
+                        if sk.events.lock().unwrap().iter().filter(|e| e.kind == vt::Kind::Begin).count() >= n { break; }
                         if t0.elapsed() > Duration::from_secs(2) { break; }
                         tokio::task::yield_now().await;
                     }
@@ -182,9 +241,7 @@ async fn drive(sc: Scenario, sink: Arc<vt::Sink>) -> Outcome {
         }
     }
     // join with a deadline: a caller that does not return is a hang
-    let deadline = tokio::time::Instant::now() + Duration::from_secs(15);
-    let mut results = Vec::new();
-    let mut hung = false;
+    let deadline = tokio::time::Instant::now() + Duration::from_secs(if sc.jump_before_wave.iter().any(|j| *j) { 6 } else { 15 });
     for (i, h) in handles {
         let ab = h.abort_handle();
         match tokio::time::timeout_at(deadline, h).await {
@@ -193,9 +250,9 @@ async fn drive(sc: Scenario, sink: Arc<vt::Sink>) -> Outcome {
             Err(_) => { hung = true; ab.abort(); }
         }
     }
-    if sc.final_wait_ms > 0 { tokio::time::sleep(Duration::from_millis(sc.final_wait_ms)).await; }
+    if sc.final_wait_ms > 0 && !sc.inline_then_drop { tokio::time::sleep(Duration::from_millis(sc.final_wait_ms)).await; }
     // drop the manager (the callers' clones are gone: their tasks have finished or were aborted)
-    tokio::task::yield_now().await;
+    if !sc.inline_then_drop { tokio::task::yield_now().await; }
     vt::push(vt::Kind::Harness, 0, 1);
     drop(mgr);
     // grace period: every worker must run its exit sequence
@@ -263,8 +320,25 @@ fn remover(events: &[vt::Ev], k: usize) -> Option<usize> {
     events[k + 1..].iter().find(|e| e.thread == events[k].thread).and_then(|e| if e.kind == vt::Kind::ExitRemoveDone { Some(e.pset) } else { None })
 }
 
-fn translate(events: &[vt::Ev]) -> Translated {
+fn translate(events_in: &[vt::Ev]) -> Translated {
     use vt::Kind::*;
+    // The worker is spawned inside the vacant arm, the Ensure event is logged at the end of
+    // ensure_managed_paths: on a multi-thread runtime the new worker's first events can be logged
+    // before it.  Path-set addresses are not reused within a run (the probes keep them alive), so
+    // an event of a path set logged before its creating Ensure is exactly that: move the Ensure up.
+    let mut events_v: Vec<vt::Ev> = events_in.to_vec();
+    let mut k = 0;
+    while k < events_v.len() {
+        if events_v[k].kind == Ensure && events_v[k].arg == 1 {
+            let a = events_v[k].pset;
+            if let Some(j) = events_v[..k].iter().position(|e| e.pset == a) {
+                let ev = events_v.remove(k);
+                events_v.insert(j, ev);
+            }
+        }
+        k += 1;
+    }
+    let events: &[vt::Ev] = &events_v;
     let mut addr: HashMap<usize, usize> = HashMap::new();
     let mut nps = 0usize;
     let mut labels = Vec::new();
@@ -354,7 +428,7 @@ fn gen_random(r: &mut Rng, idx: usize, mt_share: u64) -> Scenario {
             kind: *r.pick(&[0u8, 0, 0, 0, 1, 1, 2, 2]),
             timeout_us: *r.pick(&[0u64, 100, 500, 2000, 8000, 50_000]),
             far_future: expired_mode() && r.chance(1, 8),
-            after_quit: None,
+            after_quit: None, after_begin: None,
             wave: if two_waves && r.chance(2, 5) { if three_waves && r.chance(1, 2) { 2 } else { 1 } } else { 0 },
             pre_yields: r.below(6) as u32,
             pre_sleep_us: if r.chance(1, 3) { r.below(4000) } else { 0 },
@@ -376,7 +450,7 @@ fn gen_random(r: &mut Rng, idx: usize, mt_share: u64) -> Scenario {
         name: format!("rand{idx}"), threads, waiters, answers, idle_ms, refetch_ms, gap_ms,
         stop_in_wave: [s0, s1, s2],
         final_wait_ms: *r.pick(&[0u64, 0, 3, (idle_ms.min(30) * 5) / 2]),
-        perturb: r.below(3) as u32, seed: r.next(),
+        perturb: r.below(3) as u32, seed: r.next(), jump_before_wave: [false; 3], inline_then_drop: false,
     }
 }
 
@@ -386,11 +460,11 @@ fn gen_random(r: &mut Rng, idx: usize, mt_share: u64) -> Scenario {
 fn expired_mode() -> bool { std::env::var("VERIF_C20_EXPIRED").as_deref() == Ok("1") }
 
 fn gen_directed(seed: u64) -> Vec<Scenario> {
-    let w = |kind, wave, y| WSpec { kind, wave, pre_yields: y, pre_sleep_us: 0, timeout_us: 1500, far_future: false, after_quit: None };
+    let w = |kind, wave, y| WSpec { kind, wave, pre_yields: y, pre_sleep_us: 0, timeout_us: 1500, far_future: false, after_quit: None, after_begin: None };
     let a = |res, yields, sleep_ms| Ans { res, yields, sleep_ms };
     let base = |name: &str, threads, waiters: Vec<WSpec>, answers: Vec<Ans>| Scenario {
         name: name.into(), threads, waiters, answers, idle_ms: 10_000, refetch_ms: 60_000, gap_ms: [0, 0, 0],
-        stop_in_wave: [None, None, None], final_wait_ms: 0, perturb: 0, seed,
+        stop_in_wave: [None, None, None], final_wait_ms: 0, perturb: 0, seed, jump_before_wave: [false; 3], inline_then_drop: false,
     };
     let mut v = Vec::new();
     for threads in [0usize, 3] {
@@ -430,6 +504,36 @@ fn gen_directed(seed: u64) -> Vec<Scenario> {
             let mut s = base(&format!("arrive-during-idle-exit-m{mode}-r{res}"), threads, vec![w(0, 0, 0)], vec![a(res, 1, 0), a(0, 1, 1)]);
             for k in 0..10u32 { let mut x = w(if k % 5 == 4 { 1 } else { 0 }, 0, 0); x.after_quit = Some(k); s.waiters.push(x); }
             s.idle_ms = 12; s.perturb = mode;
+            v.push(s);
+        }
+        // failed lookup, then its retry (wall clock moved past the backoff): callers before the
+        // first lookup, during it, between the failure and the retry, and during the retry (they
+        // watch the trace for the retry's first locked block), for every outcome of the retry
+        for first in [3u8, 2, 1] {
+            for retry in [0u8, 1, 3] {
+                let mut s = base(&format!("retry-after-failure-f{first}-r{retry}"), threads,
+                    vec![w(0, 0, 0), w(0, 0, 1), w(1, 0, 2), w(0, 0, 3), w(0, 1, 0), w(1, 1, 0), w(0, 2, 0)],
+                    vec![a(first, 6, 0), a(retry, 8, 0), a(0, 1, 0)]);
+                for (k, kind) in [(0u32, 0u8), (1, 0), (2, 1), (3, 0), (5, 0)] { let mut x = w(kind, 2, 0); x.after_begin = Some((2, k)); s.waiters.push(x); }
+                s.idle_ms = 3_600_000; s.gap_ms = [0, 1, 1]; s.jump_before_wave = [false, false, true];
+                if retry == 3 && first == 3 { s.perturb = 2; }
+                v.push(s);
+            }
+        }
+        // error, error, then ok / empty / error: callers during the first and the second retry
+        for last in [0u8, 1, 3] {
+            let mut s = base(&format!("two-retries-then-r{last}"), threads, vec![w(0, 0, 0), w(0, 0, 2)], vec![a(3, 4, 0), a(3, 6, 0), a(last, 6, 0), a(0, 1, 0)]);
+            for k in [0u32, 2, 4] { let mut x = w(0, 1, 0); x.after_begin = Some((2, k)); s.waiters.push(x); }
+            for k in [0u32, 1, 3] { let mut x = w(0, 2, 0); x.after_begin = Some((3, k)); s.waiters.push(x); }
+            s.idle_ms = 3_600_000; s.gap_ms = [0, 1, 1]; s.jump_before_wave = [false, true, true];
+            v.push(s);
+        }
+        // the worker exits before any lookup: the request that spawns it and the drop of the
+        // manager happen without an await in between; afterwards its handles must report the
+        // exit error, initialised, nothing ongoing
+        for n_callers in [1usize, 2] {
+            let mut s = base(&format!("drop-before-first-poll-{n_callers}"), threads, (0..n_callers).map(|_| w(1, 0, 0)).collect(), vec![a(0, 0, 0)]);
+            s.inline_then_drop = true;
             v.push(s);
         }
         // drop while a lookup started by cached_path is still running
@@ -478,7 +582,7 @@ fn gen_sweep(code: u64, seed: u64) -> Scenario {
     let vec = (code % 6561) as u32;
     let stop_y = ((code / 6561) % 7) as u32;          // 6 = no stop
     let variant = (code / (6561 * 7)) % 4;
-    let w = |kind, wave, y| WSpec { kind, wave, pre_yields: y, pre_sleep_us: 0, timeout_us: 0, far_future: false, after_quit: None };
+    let w = |kind, wave, y| WSpec { kind, wave, pre_yields: y, pre_sleep_us: 0, timeout_us: 0, far_future: false, after_quit: None, after_begin: None };
     let answers = match variant {
         0 => vec![Ans { res: 3, yields: 2, sleep_ms: 0 }, Ans { res: 0, yields: 1, sleep_ms: 0 }],
         1 => vec![Ans { res: 0, yields: 3, sleep_ms: 0 }, Ans { res: 1, yields: 0, sleep_ms: 0 }],
@@ -490,7 +594,7 @@ fn gen_sweep(code: u64, seed: u64) -> Scenario {
         waiters: vec![w(0, 0, 0), w(0, 0, 1), w(1, 0, 2), w(0, 0, 3), w(0, 0, 6), w(1, 0, 9)],
         answers, idle_ms: 10_000, refetch_ms: 60_000, gap_ms: [0, 0, 0],
         stop_in_wave: [if stop_y < 6 { Some((stop_y * 2, 0)) } else { None }, None, None],
-        final_wait_ms: 0, perturb: 1000 + vec, seed,
+        final_wait_ms: 0, perturb: 1000 + vec, seed, jump_before_wave: [false; 3], inline_then_drop: false,
     }
 }
 
@@ -512,17 +616,23 @@ fn main() {
     // run in parallel (each scenario owns its runtime and its thread-local sink)
     let next = AtomicUsize::new(0);
     let outs: Vec<Mutex<Option<Outcome>>> = scenarios.iter().map(|_| Mutex::new(None)).collect();
+    let moves_clock = |sc: &Scenario| sc.jump_before_wave.iter().any(|j| *j);
     let par = std::thread::available_parallelism().map(|x| x.get()).unwrap_or(4).clamp(2, 8);
     std::thread::scope(|s| {
         for _ in 0..par {
             s.spawn(|| loop {
                 let k = next.fetch_add(1, Ordering::SeqCst);
                 if k >= scenarios.len() { break; }
+                if moves_clock(&scenarios[k]) { continue; }   // the wall clock is process-wide: run those alone, below
                 let o = run_scenario(&scenarios[k]);
                 *outs[k].lock().unwrap() = Some(o);
             });
         }
     });
+
+    for (k, sc) in scenarios.iter().enumerate() {
+        if moves_clock(sc) { *outs[k].lock().unwrap() = Some(run_scenario(sc)); }
+    }
 
     let mut sh = Shards::new(&out, "From Coq Require Import NArith List.\nFrom Sci Require Import Sync.Cases.\nImport ListNotations.\nOpen Scope nat_scope.", "scase", "verdicts", 20);
     let mut sum = Summary::default();
@@ -534,7 +644,7 @@ fn main() {
         let t = translate(&o.events);
         let strict = sc.threads == 0;
         sum.count(if strict { "runtime.current_thread" } else { "runtime.multi_thread" });
-        sum.count(&format!("family.{}", if sc.name.starts_with("rand") { "random" } else if sc.name.starts_with("sweep-") { "systematic_sweep" } else if sc.name.starts_with("stop-sweep") { "stop_sweep" } else { "directed" }));
+        sum.count(&format!("family.{}", if sc.name.starts_with("rand") { "random" } else if sc.name.starts_with("sweep-") { "systematic_sweep" } else if sc.name.starts_with("stop-sweep") { "stop_sweep" } else if sc.name.contains("retr") { "failed_lookup_and_retry" } else if sc.name.starts_with("drop-before-first-poll") { "exit_before_first_lookup" } else { "directed" }));
         sum.count(&format!("callers.{}", sc.waiters.len().min(9)));
         sum.add("events", o.events.len() as u64);
         sum.add("workers_spawned", t.nps as u64);
@@ -620,7 +730,7 @@ fn main() {
         outcomes.insert(oc_key);
         let line = format!("{} {} callers={:?} answers={:?} idle={}ms refetch={}ms gaps={:?}ms stop={:?} final_wait={}ms perturb={} seed={} hung={} exited_all={} {} results={:?} trace: {}",
             sc.name, if strict { "ct".to_string() } else { format!("mt{}", sc.threads) },
-            sc.waiters.iter().map(|w| format!("{}{}y{}{}{}", ["p", "c", "t"][w.kind as usize], w.wave, w.pre_yields, if w.far_future { "F" } else { "" }, w.after_quit.map(|k| format!("q{k}")).unwrap_or_default())).collect::<Vec<_>>(),
+            sc.waiters.iter().map(|w| format!("{}{}y{}{}{}", ["p", "c", "t"][w.kind as usize], w.wave, w.pre_yields, if w.far_future { "F" } else { "" }, w.after_quit.map(|k| format!("q{k}")).or(w.after_begin.map(|(n, k)| format!("b{n}+{k}"))).unwrap_or_default())).collect::<Vec<_>>(),
             sc.answers.iter().map(|a| format!("{}y{}s{}", ["ok", "empty", "notfound", "err"][a.res as usize], a.yields, a.sleep_ms)).collect::<Vec<_>>(),
             sc.idle_ms, sc.refetch_ms, sc.gap_ms, sc.stop_in_wave, sc.final_wait_ms, sc.perturb, sc.seed, o.hung, o.exited_all,
             if t.ok { String::new() } else { format!("UNTRANSLATABLE({})", t.why) }, o.results, tr_short);
